@@ -5,9 +5,10 @@
   APDU, computing the HLS proof) and of the counters of the protected APDUs it accepted.
 -/
 import DlmsVerif.Lemmas.ConnDefs
+import DlmsVerif.Lemmas.ConnRecv
 
 namespace Props.C06
-open Dlms Model.Conn Lemmas.ConnDefs
+open Dlms Model.Conn Lemmas.ConnDefs Lemmas.ConnRecv
 
 def nonce (u : Use) : Bytes × Nat := (u.args.title, u.args.ic)
 
@@ -15,15 +16,24 @@ def nonce (u : Use) : Bytes × Nat := (u.args.title, u.args.ic)
     history of sends, receives and HLS replies (accepted or refused), from any starting counter. -/
 theorem C06_nonces_nodup (c : Config) (ops : List Op) (state : String) (cic mic : Nat) (mt : Option Bytes) :
     ((run T c ops (fresh state cic mic mt)).log.map nonce).Nodup := by
-  sorry
+  have hinv := HistInv_history c ops state cic mic mt
+  generalize run T c ops (fresh state cic mic mt) = s at hinv
+  unfold List.Nodup
+  rw [List.pairwise_iff_getElem]
+  intro i j hi hj hij heq
+  simp only [List.length_map] at hi hj
+  simp only [List.getElem_map, nonce, Prod.mk.injEq] at heq
+  have h1 := (hinv.idx i s.log[i] (List.getElem?_eq_getElem hi)).1
+  have h2 := (hinv.idx j s.log[j] (List.getElem?_eq_getElem hj)).1
+  omega
 
 /-- **the k-th operation under the global key carries the starting counter plus k** (and the
     client's own title): the counter in each protected APDU is the configured starting value
     plus the number of protected items produced earlier. -/
 theorem C06_kth_counter (c : Config) (ops : List Op) (state : String) (cic mic : Nat) (mt : Option Bytes) (k : Nat) (u : Use)
     (hu : (run T c ops (fresh state cic mic mt)).log[k]? = some u) :
-    u.args.ic = cic + k ∧ u.args.title = c.clientTitle := by
-  sorry
+    u.args.ic = cic + k ∧ u.args.title = c.clientTitle :=
+  (HistInv_history c ops state cic mic mt).idx k u hu
 
 /-- the counter field of an emitted APDU is the counter that was used to seal it, and the
     connection's counter moves past it. -/
@@ -35,15 +45,27 @@ theorem C06_counter_in_apdu (c : Config) (s s' : Conn) (k : Kind) (ui : Bool) (o
         ∃ a p, ct = .sealed a p ∧ a.ic = ic ∧ s'.log = s.log ++ [.seal a]
     | .ggc _ _ ic ct => ic = s.clientIC ∧ s'.clientIC = s.clientIC + 1 ∧
         ∃ a p, ct = .sealed a p ∧ a.ic = ic ∧ s'.log = s.log ++ [.seal a] := by
-  sorry
+  unfold send at h
+  dsimp only at h
+  repeat' split at h
+  all_goals first
+    | (simp at h; done)
+    | (simp only [Prod.mk.injEq, Except.ok.injEq] at h
+       obtain ⟨rfl, rfl⟩ := h
+       exact ⟨rfl, rfl⟩)
+    | (rename_i heq
+       obtain ⟨args, h1, _, rfl, rfl, rfl⟩ := encrypt_ok heq
+       simp only [Prod.mk.injEq, Except.ok.injEq] at h
+       obtain ⟨rfl, rfl⟩ := h
+       exact ⟨rfl, rfl, args, _, rfl, h1, rfl⟩)
 
 /-- **accepted counters strictly increase** over every history: each accepted protected APDU
     has a counter greater than that of every one accepted before, and the connection
     remembers the largest. -/
 theorem C06_recv_strict (c : Config) (ops : List Op) (state : String) (cic mic : Nat) (mt : Option Bytes) :
     let s := run T c ops (fresh state cic mic mt)
-    s.accepted.Pairwise (· < ·) ∧ (∀ x ∈ s.accepted, mic < x ∧ x ≤ s.meterIC) := by
-  sorry
+    s.accepted.Pairwise (· < ·) ∧ (∀ x ∈ s.accepted, mic < x ∧ x ≤ s.meterIC) :=
+  ⟨(HistInv_history c ops state cic mic mt).pw, (HistInv_history c ops state cic mic mt).bnd⟩
 
 /-- hence **a recorded APDU replayed later, or delivered twice, is refused**: once a counter
     has been accepted, every later protected APDU carrying it (whatever its content) is
@@ -52,6 +74,7 @@ theorem C06_replay_refused (c : Config) (hp : c.useProtection = true) (ops : Lis
     (ic : Nat) (hin : ic ∈ (run T c ops (fresh state cic mic mt)).accepted) (t : Bytes) (sc : Nat) (ct : Cipher) :
     recv T c (run T c ops (fresh state cic mic mt)) (.apdu (.ggc t sc ic ct)) =
       (.error .protocol, run T c ops (fresh state cic mic mt)) := by
-  sorry
+  have hic := ((C06_recv_strict c ops state cic mic mt).2 ic hin).2
+  simp [recv, unprotect, hp, hic]
 
 end Props.C06
